@@ -16,16 +16,16 @@ BATTR = {"none", "text", "bg", "brd_left", "brd_top", "brd_right", "brd_bottom"}
 PATHS = {"single", "multi2", "multi3", "figure"}
 ALLIDX = set(range(1, 658))
 GEN = {
-    "quick": [dict(name="all657", consts=dict(PathSet={"single"}, ColourIdx=ALLIDX, KSet={1}, ModeSet={"off"}, BodyAttrSet={"text"}, ShapeSet={"scalar"}, FontSet={1}, HAutoSet={False}, UseColorSet={"default"}, ReEncSet={False})),
-              dict(name="paths", consts=dict(PathSet=PATHS, ColourIdx={26, 552}, KSet={2}, ModeSet={"off", "both"}, BodyAttrSet={"none", "text"}, ShapeSet={"matrix"}, FontSet={1}, HAutoSet={False}, UseColorSet={"default"}, ReEncSet={False})),
-              dict(name="borders", consts=dict(PathSet=PATHS, ColourIdx={26, 552}, KSet={2}, ModeSet={"off", "border"}, BodyAttrSet={"none", "brd_top"}, ShapeSet={"col"}, FontSet={1}, HAutoSet={False}, UseColorSet={"default"}, ReEncSet={False})),
-              dict(name="options", consts=dict(PathSet={"single"}, ColourIdx={26, 552}, KSet={2}, ModeSet={"off", "both"}, BodyAttrSet={"text"}, ShapeSet={"scalar"}, FontSet={1}, HAutoSet={False, True}, UseColorSet={"default", "true", "false"}, ReEncSet={False, True})),
-              dict(name="sim", consts=dict(PathSet=PATHS, ColourIdx=ALLIDX, KSet=set(range(1, 9)), ModeSet=MODES, BodyAttrSet=BATTR, ShapeSet={"scalar", "col", "matrix"}, FontSet=set(range(1, 11)), HAutoSet={False, True}, UseColorSet={"default", "true", "false"}, ReEncSet={False, True}), simulate=700)],
-    "thorough": [dict(name="all657", consts=dict(PathSet={"single", "multi2"}, ColourIdx=ALLIDX, KSet={1}, ModeSet={"off"}, BodyAttrSet={"text", "bg", "brd_top"}, ShapeSet={"scalar"}, FontSet={1}, HAutoSet={False}, UseColorSet={"default"}, ReEncSet={False})),
-                 dict(name="paths", consts=dict(PathSet=PATHS, ColourIdx={26, 552}, KSet={2}, ModeSet={"off", "both"}, BodyAttrSet={"none", "text"}, ShapeSet={"matrix"}, FontSet={1}, HAutoSet={False}, UseColorSet={"default"}, ReEncSet={False})),
-              dict(name="borders", consts=dict(PathSet=PATHS, ColourIdx={26, 552}, KSet={2}, ModeSet={"off", "border"}, BodyAttrSet={"none", "brd_top"}, ShapeSet={"col"}, FontSet={1}, HAutoSet={False}, UseColorSet={"default"}, ReEncSet={False})),
-              dict(name="options", consts=dict(PathSet={"single"}, ColourIdx={26, 552}, KSet={2}, ModeSet={"off", "both"}, BodyAttrSet={"text"}, ShapeSet={"scalar"}, FontSet={1}, HAutoSet={False, True}, UseColorSet={"default", "true", "false"}, ReEncSet={False, True})),
-                 dict(name="sim", consts=dict(PathSet=PATHS, ColourIdx=ALLIDX, KSet=set(range(1, 9)), ModeSet=MODES, BodyAttrSet=BATTR, ShapeSet={"scalar", "col", "matrix"}, FontSet=set(range(1, 11)), HAutoSet={False, True}, UseColorSet={"default", "true", "false"}, ReEncSet={False, True}), simulate=12000)],
+    "quick": [dict(name="all657", consts=dict(PathSet={"single"}, ColourIdx=ALLIDX, KSet={1}, ModeSet={"off"}, BodyAttrSet={"text"}, ShapeSet={"scalar"}, FontSet={1}, HAutoSet={False}, UseColorSet={"default"}, ReEncSet={False}, LongSet={False})),
+              dict(name="paths", consts=dict(PathSet=PATHS, ColourIdx={26, 552}, KSet={2}, ModeSet={"off", "both"}, BodyAttrSet={"none", "text"}, ShapeSet={"matrix"}, FontSet={1}, HAutoSet={False}, UseColorSet={"default"}, ReEncSet={False}, LongSet={False})),
+              dict(name="borders", consts=dict(PathSet=PATHS, ColourIdx={26, 552}, KSet={2}, ModeSet={"off", "border"}, BodyAttrSet={"none", "brd_top"}, ShapeSet={"col"}, FontSet={1}, HAutoSet={False}, UseColorSet={"default"}, ReEncSet={False}, LongSet={False})),
+              dict(name="options", consts=dict(PathSet={"single"}, ColourIdx={26, 552}, KSet={2}, ModeSet={"off", "both"}, BodyAttrSet={"text"}, ShapeSet={"scalar"}, FontSet={1}, HAutoSet={False, True}, UseColorSet={"default", "true", "false"}, ReEncSet={False, True}, LongSet={False, True})),
+              dict(name="sim", consts=dict(PathSet=PATHS, ColourIdx=ALLIDX, KSet=set(range(1, 9)), ModeSet=MODES, BodyAttrSet=BATTR, ShapeSet={"scalar", "col", "matrix"}, FontSet=set(range(1, 11)), HAutoSet={False, True}, UseColorSet={"default", "true", "false"}, ReEncSet={False, True}, LongSet={False, True}), simulate=700)],
+    "thorough": [dict(name="all657", consts=dict(PathSet={"single", "multi2"}, ColourIdx=ALLIDX, KSet={1}, ModeSet={"off"}, BodyAttrSet={"text", "bg", "brd_top"}, ShapeSet={"scalar"}, FontSet={1}, HAutoSet={False}, UseColorSet={"default"}, ReEncSet={False}, LongSet={False})),
+                 dict(name="paths", consts=dict(PathSet=PATHS, ColourIdx={26, 552}, KSet={2}, ModeSet={"off", "both"}, BodyAttrSet={"none", "text"}, ShapeSet={"matrix"}, FontSet={1}, HAutoSet={False}, UseColorSet={"default"}, ReEncSet={False}, LongSet={False})),
+              dict(name="borders", consts=dict(PathSet=PATHS, ColourIdx={26, 552}, KSet={2}, ModeSet={"off", "border"}, BodyAttrSet={"none", "brd_top"}, ShapeSet={"col"}, FontSet={1}, HAutoSet={False}, UseColorSet={"default"}, ReEncSet={False}, LongSet={False})),
+              dict(name="options", consts=dict(PathSet={"single"}, ColourIdx={26, 552}, KSet={2}, ModeSet={"off", "both"}, BodyAttrSet={"text"}, ShapeSet={"scalar"}, FontSet={1}, HAutoSet={False, True}, UseColorSet={"default", "true", "false"}, ReEncSet={False, True}, LongSet={False, True})),
+                 dict(name="sim", consts=dict(PathSet=PATHS, ColourIdx=ALLIDX, KSet=set(range(1, 9)), ModeSet=MODES, BodyAttrSet=BATTR, ShapeSet={"scalar", "col", "matrix"}, FontSet=set(range(1, 11)), HAutoSet={False, True}, UseColorSet={"default", "true", "false"}, ReEncSet={False, True}, LongSet={False, True}), simulate=12000)],
 }
 JUDGE = ["C12_Resolve", "C12_Font", "C12_Complete"]
 
@@ -51,7 +51,7 @@ def spec_from_cfg(c):
         comp[name] = [t, b, f, brd]
     sections = []
     for s in range(1, nsec(c) + 1):
-        sec = dict(n=2, m=2)
+        sec = dict(n=34 if c.get("long") else 2, m=2)
         if c["battr"] != "none":
             def colour(r, col):
                 if c["shape"] == "scalar":
@@ -73,7 +73,8 @@ def spec_from_cfg(c):
                 sec["brd"] = {c["battr"][4:]: mat}
         sections.append(sec)
     path = "figure" if c["path"] == "figure" else ("single" if c["path"] == "single" else "multi")
-    return dict(path=path, sections=sections, comp=comp, header_auto=bool(c.get("hauto")), use_color=c.get("usecolor", "default"))
+    extra = {"nrow": 3} if c.get("long") else {}
+    return dict(path=path, sections=sections, comp=comp, header_auto=bool(c.get("hauto")), use_color=c.get("usecolor", "default"), **extra)
 
 
 def run_one(sc):
